@@ -19,7 +19,8 @@ MANIFEST = {
              "communication error (connection error for timeouts and connection failures, status kept for response "
              "errors), the session requester makes at most three attempts and repeats only after connection-level "
              "failures; host_zone_stripped: for every zoned URL of the grammar and all header maps exactly one Host header "
-             "without zone is sent. The ladders, the retry count and the issubclass matrix are regenerated from aiohttp.py / "
+             "without zone is sent; fixed_host_text: the text-level transcription of _fixed_host_header equals the grammar-level "
+             "function assuming only urlparse's hostname/port (assumption compared with the real urlparse on every case). The ladders, the retry count and the issubclass matrix are regenerated from aiohttp.py / "
              "exceptions.py on every run (tools/gen_c17.py) and the finite facts are re-decided; the interpreter of the "
              "tables is validated against the real requesters over a scripted fake ClientSession."),
     "note": ("Trusted: Lean kernel + standard axioms; the translator (ast shapes it accepts; refuses others); the fake "
@@ -30,7 +31,8 @@ MANIFEST = {
     "technique": "Lean 4 proof over generated tables (decide + induction over scripts) + translator validation by correspondence",
 }
 RULE = ("one case = one request: requester kind x URL form x default/caller header maps x outcome script (padded by "
-        "repeating its last outcome); every sequence up to the tier's depth over {success} + the 20 transport classes, each "
+        "repeating its last outcome); every sequence up to the tier's depth (quick 2, thorough 4 = the property's "
+        "quantifier) over {success} + the 20 transport classes, each "
         "raised at a rotating stage (request call / connect / read / decode), plus a random sample of longer scripts; "
         "compared: result class, isinstance facts, status, number of session.request calls, URL and headers of every call. "
         "non-trivial = a failure is mapped, retried or a zoned Host is rewritten; distinct = distinct canonical driver text")
@@ -179,6 +181,10 @@ def run_recipe(ctx: Ctx, recipe: Dict[str, Any], cid: str) -> Case:
     tags = {f"kind:{kind}", f"url:{u['kind']}{'+port' if u.get('port') else ''}",
             "caller:" + ("none" if caller is None else "host" if any(k.lower() == "host" for k in caller) else "other"),
             f"len:{len(ops)}"}
+    from urllib.parse import urlparse
+
+    pu = urlparse(url)
+    lines.append(f"parse {'none' if pu.hostname is None else tok_str(pu.hostname)} {pu.port if pu.port else '-'}")
     for out in script:
         if "exc" in out:
             lines.append(f"out exc {out['exc']} {out['st'] if out.get('st') is not None else '-'}")
@@ -277,6 +283,14 @@ def mk_out(rng, name: str, i: int, stage: Optional[str] = None) -> Dict[str, Any
     return out
 
 
+def _work(args):
+    from vk.core import activate_repo
+
+    activate_repo()
+    ctx, chunk = args
+    return [run_recipe(ctx, rec, cid) for cid, rec in chunk]
+
+
 def generate(ctx: Ctx) -> List[Case]:
     rng = ctx.rng
     search = getattr(ctx, "search", False)
@@ -313,6 +327,23 @@ def generate(ctx: Ctx) -> List[Case]:
             caller = rng.choice(caller_variants(u))
             kind = "session+sleep" if rng.random() < 0.2 else "session"
             add(kind, u, rng.choice(OWN_VARIANTS), caller, [mk_out(rng, nm, j) for j, nm in enumerate(seq)], f"e{n}_")
+    # thorough: ALL scripts of length 4 as well (the property's quantifier is 1..4), in worker processes
+    if ctx.thorough and not search:
+        import multiprocessing as mp
+
+        jobs = []
+        for seq in itertools.product(alpha, repeat=4):
+            u = URLS[rng.randrange(len(URLS))]
+            jobs.append((f"e4_{i}", {"kind": "session", "url": u, "own": None, "caller": rng.choice(caller_variants(u)),
+                                     "ops": [mk_out(rng, nm, j) for j, nm in enumerate(seq)]}))
+            i += 1
+        n = 12
+        lite = Ctx(ctx.prop, ctx.tier, ctx.seed, ctx.work, ctx.deadline)
+        with mp.get_context("fork").Pool(n) as pool:
+            parts = pool.map(_work, [(lite, jobs[k::n]) for k in range(n)])
+        by_id = {c.cid: c for part in parts for c in part}
+        cases.extend(by_id[cid] for cid, _ in jobs)
+        EXHAUSTIVE["thorough"] = False  # exhaustive over classes, the raising stage per outcome is drawn at random
     # sample of longer scripts (length 3..4 quick, 4..6 thorough), biased to connection-level prefixes
     conn = ["TimeoutError", "ClientConnectionError", "ClientOSError", "ServerDisconnectedError", "ServerTimeoutError",
             "ClientConnectorError", "ServerConnectionError"]
